@@ -30,7 +30,7 @@ var bias = ls.Bias{
 }
 
 func TestScenarios(t *testing.T) {
-	rt.Check(t, 1500, 150000, func(t *rapid.T) {
+	rt.Check(t, 1500, 600000, func(t *rapid.T) {
 		p := ls.GenProgram(bias).Draw(t, "program")
 		res, bubble := ls.RunInBubble(t, p)
 		if bubble != "" {
